@@ -2,7 +2,7 @@
    Model: coq/C16/Model.v (resource ledger; ops = mechanism-level events).  Inv, row_wf, quiet, qvec, released are
    defined in ProofsInv.v / ProofsState.v and repeated in the comments below. *)
 From Coq Require Import List ZArith NArith Bool.
-From LTV.C16 Require Import ParamsGen Model Proofs ProofsInv ProofsState ProofsBlocks.
+From LTV.C16 Require Import ParamsGen Model Proofs ProofsInv ProofsState ProofsBlocks ParamsTie.
 Import ListNotations.
 Open Scope Z_scope.
 
@@ -93,7 +93,10 @@ Theorem hypotheses_satisfiable :
 Proof. exact ex_hyps. Qed.
 Print Assumptions hypotheses_satisfiable.
 
+(* the constants of the compiled code are the model's (DownloadInfo::max_size_pex is a tuning constant: the model takes it
+   as state, set by SetMaxPex from the probed value; the theorems hold for every value) *)
 Theorem params_ok_now :
-  Params.c16_hs_part1 = 48%N /\ Params.c16_hs_size = 68%N /\ Params.c16_piece_hdr = 13%N /\ (0 < Params.c16_max_size_pex)%Z.
-Proof. exact Proofs.params_ok_now. Qed.
+  Params.c16_hs_part1 = MP.hs_part1 /\ Params.c16_hs_size = MP.hs_size /\ Params.c16_piece_hdr = MP.piece_hdr /\
+  (0 < Params.c16_max_size_pex)%Z.
+Proof. exact ParamsTie.params_ok_now. Qed.
 Print Assumptions params_ok_now.
